@@ -11,6 +11,7 @@ import (
 	"errors"
 	"flag"
 	"fmt"
+	multierror "github.com/hashicorp/go-multierror"
 	"sort"
 	"strconv"
 	"strings"
@@ -54,6 +55,12 @@ func (w *wrapRec) Reopen() error {
 	return nil
 }
 
+// sameErr: identity of error values (pointers compare by address, comparable values by value)
+func sameErr(a, b error) bool {
+	defer func() { recover() }()
+	return a == b
+}
+
 func asRec(n eventlogger.Node) *recNode {
 	if w, ok := n.(*wrapRec); ok {
 		return w.inner
@@ -91,11 +98,38 @@ func (n *recNode) Process(ctx context.Context, e *eventlogger.Event) (*eventlogg
 	case "drop":
 		return nil, nil
 	case "errev": // an error together with a non-nil event
-		return e, instErr{n.inst}
+		return e, n.fail()
 	default:
-		return nil, instErr{n.inst}
+		return nil, n.fail()
 	}
 }
+
+// fail: the error this node's Process returns: a plain one, a wrapped one, or a multierror with two
+// members or with none (whatever it is, it is ONE error returned by ONE node: one warning, that very
+// value)
+func (n *recNode) fail() error {
+	var err error
+	switch n.inst % 4 {
+	case 1:
+		err = fmt.Errorf("wrapped: %w", instErr{n.inst})
+	case 2:
+		err = &multierror.Error{Errors: []error{instErr{n.inst}, errors.New("second member")}}
+	case 3:
+		err = &multierror.Error{ErrorFormat: func([]error) string { return fmt.Sprintf("inst %d failed (empty multierror)", n.inst) }}
+	default:
+		err = instErr{n.inst}
+	}
+	n.h.mu.Lock()
+	n.h.returned = append(n.h.returned, retErr{n.inst, err})
+	n.h.mu.Unlock()
+	return err
+}
+
+type retErr struct {
+	inst int
+	err  error
+}
+
 func (n *recNode) Reopen() error {
 	n.h.mu.Lock()
 	if n.wrapped {
@@ -156,6 +190,7 @@ type regHarness struct {
 	failInst    int
 	curType     string
 	curPayload  interface{}
+	returned    []retErr // the errors the nodes' Process calls returned during the current Send
 	nextInst    int
 	st          *stats
 	caseOps     []string
@@ -243,6 +278,14 @@ func polOpt(pol string, node bool) []eventlogger.Option {
 			p = eventlogger.AllowOverwrite
 		case "deny":
 			p = eventlogger.DenyOverwrite
+		case "invalidc": // the right word in the wrong case is not a policy value
+			p = eventlogger.RegistrationPolicy(strings.ToLower(string(eventlogger.DenyOverwrite)))
+		case "invalidu":
+			p = eventlogger.RegistrationPolicy(strings.ToUpper(string(eventlogger.AllowOverwrite)))
+		case "invalide":
+			p = ""
+		case "invalids":
+			p = eventlogger.DenyOverwrite + " "
 		default:
 			p = "Bogus"
 		}
@@ -263,10 +306,10 @@ func effPol(pol string) string {
 	}
 	eff := "dflt"
 	for _, tok := range strings.Split(pol, "+") {
-		switch tok {
-		case "invalid", "xinvalid":
+		switch {
+		case strings.HasPrefix(strings.TrimPrefix(tok, "x"), "invalid"):
 			return "invalid"
-		case "allow", "deny":
+		case tok == "allow" || tok == "deny":
 			eff = tok
 		}
 	}
@@ -732,6 +775,7 @@ func (h *regHarness) exec(line string) string {
 		h.calls = nil
 		h.curType = string(tyS(ty))
 		h.curPayload = fmt.Sprintf("payload-%d", h.st.Ops)
+		h.returned = nil
 		h.mu.Unlock()
 		status, err := h.b.Send(ctx, tyS(ty), h.curPayload)
 		if !h.graphs[ty] {
@@ -796,13 +840,23 @@ func (h *regHarness) exec(line string) string {
 		for _, c := range status.CompleteSinks() {
 			gotSinks = append(gotSinks, parseName(string(c)))
 		}
+		h.mu.Lock()
+		returned := append([]retErr(nil), h.returned...)
+		h.mu.Unlock()
 		for _, w := range status.Warnings {
-			var ie instErr
-			if errors.As(w, &ie) {
-				gotWarn = append(gotWarn, ie.inst)
-			} else {
-				gotWarn = append(gotWarn, -1)
+			// every warning is an error a node returned during this Send: that very value
+			inst := -1
+			for i, r := range returned {
+				if r.err != nil && sameErr(r.err, w) {
+					inst = r.inst
+					returned[i].err = nil
+					break
+				}
 			}
+			if inst < 0 {
+				h.oracle("C02 Send(%d): the warning %q is not an error that a node returned during this Send (returned: %d errors)", ty, w.Error(), len(h.returned))
+			}
+			gotWarn = append(gotWarn, inst)
 		}
 		if cs(calls) != cs(wantCalls) {
 			h.oracle("C01 Send(%d) invoked %s, statement says %s", ty, cs(calls), cs(wantCalls))
@@ -868,7 +922,7 @@ func (h *regHarness) exec(line string) string {
 
 var regBehs = []string{"pass", "pass", "replace", "drop", "err", "errev"}
 var regPols = []string{"dflt", "dflt", "allow", "deny"}
-var regPolToks = []string{"allow", "deny", "allow", "deny", "invalid", "xallow", "xdeny", "xinvalid", "nil"}
+var regPolToks = []string{"allow", "deny", "allow", "deny", "invalid", "xallow", "xdeny", "xinvalid", "nil", "invalidc", "invalidu", "invalide", "invalids", "xinvalidc"}
 
 func genRegistryCase(p *prng, malformed bool, maxLen int) []string {
 	ops := []string{"reset"}
@@ -904,7 +958,7 @@ func genRegistryCase(p *prng, malformed bool, maxLen int) []string {
 		}
 		pol := func() string {
 			if malformed && p.chance(1, 5) {
-				return "invalid"
+				return pick(p, []string{"invalid", "invalid", "invalidc", "invalidu", "invalide", "invalids"})
 			}
 			if p.chance(1, 7) {
 				// several options in one call: each is applied in order
